@@ -235,6 +235,7 @@ mod verif_native {
         let mut cases = 0u64;
         for n in 0..=40usize {
             let supported = matches!(n, 12 | 15 | 18 | 21 | 24);
+            let mut seen: Vec<Vec<u8>> = vec![];
             for _ in 0..(if supported { 64 } else { 1 }) {
                 let r = std::panic::catch_unwind(|| Mnemonic::random(Language::English, n).ok().map(|m| (m.to_phrase(), m.as_bytes().to_vec())));
                 let r = r.unwrap_or_else(|_| panic!("random({n}) panicked"));
@@ -246,9 +247,16 @@ mod verif_native {
                         assert_eq!(bytes.len(), n * 4 / 3);
                         let back = Mnemonic::from_phrase(&phrase).unwrap_or_else(|e| panic!("generated phrase {phrase:?} does not parse back: {e}"));
                         assert_eq!(back.as_bytes(), &bytes[..]);
+                        seen.push(bytes);
                     }
                 }
                 cases += 1;
+            }
+            // no entropy byte position is constant over 64 generations (false alarm probability 256^-63 per position)
+            if supported {
+                for pos in 0..n * 4 / 3 {
+                    assert!(seen.iter().any(|b| b[pos] != seen[0][pos]), "random({n}): entropy byte {pos} is {:#04x} in all 64 generations", seen[0][pos]);
+                }
             }
         }
         println!("VERIF-NATIVE-CASES nb_random_parses_back {cases}");
